@@ -981,7 +981,7 @@ def _project_choice(e, hist_pops, betas, rank, c):
     tol = 1e-9 if c["dtype"] != "float32" else 5e-4
     sum_ok = bool(p is not None and abs(float(np.sum(p)) - 1.0) < (1e-6 if c["dtype"] != "float32" else 1e-4))
     if p is not None:
-        bl = [0.0] + betas
+        bl = sorted(set([0.0] + list(betas) + [1.0]))       # (a capped schedule may stop below 1: the final move ends at 1)
         for j, pop in enumerate(hist_pops):
             if len(pop["x"]) != n_src or pop["lq"] is None:
                 continue
